@@ -90,7 +90,9 @@ fn before(a: f64, b: f64, dir: f64) -> bool {
 }
 
 /// C08 oracle on one run with events (dense output on, no t_eval)
-fn c08(s: &Solution, specs: &[EventSpec], dir: f64, ymax: f64, dymax: f64, v: &mut Vec<(String, String)>, tags: &mut Vec<&'static str>) {
+fn c08(s: &Solution, grid: &[(f64, Vec<f64>)], specs: &[EventSpec], dir: f64, ymax: f64, dymax: f64, v: &mut Vec<(String, String)>, tags: &mut Vec<&'static str>) {
+    let gt: Vec<f64> = grid.iter().map(|g| g.0).collect();
+    let gy: Vec<&Vec<f64>> = grid.iter().map(|g| &g.1).collect();
     if s.t_events.len() != specs.len() || s.y_events.len() != specs.len() {
         v.push(("shape".into(), format!("t_events has {} lists, y_events {}, {} event functions", s.t_events.len(), s.y_events.len(), specs.len())));
         return;
@@ -110,7 +112,7 @@ fn c08(s: &Solution, specs: &[EventSpec], dir: f64, ymax: f64, dymax: f64, v: &m
         for (t, y) in te.iter().zip(ye.iter()) {
             tags.push("event");
             // bracket between two consecutive accepted endpoints
-            let k = (0..s.t.len() - 1).find(|&k| !before(*t, s.t[k], dir) && !before(s.t[k + 1], *t, dir));
+            let k = (0..gt.len() - 1).find(|&k| !before(*t, gt[k], dir) && !before(gt[k + 1], *t, dir));
             let k = match k {
                 Some(k) => k,
                 None => {
@@ -137,7 +139,7 @@ fn c08(s: &Solution, specs: &[EventSpec], dir: f64, ymax: f64, dymax: f64, v: &m
                 v.push(("root".into(), format!("event {}: |g(t_e,y_e)| = {:e} exceeds L*(4e-12+8eps|t|) = {:e} (t_e={:e})", i, g.abs(), bound, t)));
             }
             // configured direction, judged at the bracketing endpoints when they have strict opposite signs
-            let (ga, gb) = (sp.g(s.t[k], &s.y[k]), sp.g(s.t[k + 1], &s.y[k + 1]));
+            let (ga, gb) = (sp.g(gt[k], gy[k]), sp.g(gt[k + 1], gy[k + 1]));
             if ga * gb < 0.0 {
                 let rising = gb > ga;
                 match sp.dir {
@@ -152,10 +154,12 @@ fn c08(s: &Solution, specs: &[EventSpec], dir: f64, ymax: f64, dymax: f64, v: &m
 }
 
 /// C09 oracle: sign pattern at consecutive accepted endpoints <=> events
-fn c09(s: &Solution, specs: &[EventSpec], dir: f64, known_root: Option<f64>, v: &mut Vec<(String, String)>, tags: &mut Vec<&'static str>) {
-    let m = s.t.len();
+fn c09(s: &Solution, grid: &[(f64, Vec<f64>)], specs: &[EventSpec], dir: f64, known_root: Option<f64>, v: &mut Vec<(String, String)>, tags: &mut Vec<&'static str>) {
+    let gt: Vec<f64> = grid.iter().map(|g| g.0).collect();
+    let gy: Vec<&Vec<f64>> = grid.iter().map(|g| &g.1).collect();
+    let m = gt.len();
     for (i, sp) in specs.iter().enumerate() {
-        let g: Vec<f64> = (0..m).map(|k| sp.g(s.t[k], &s.y[k])).collect();
+        let g: Vec<f64> = (0..m).map(|k| sp.g(gt[k], gy[k])).collect();
         // classification of steps
         #[derive(PartialEq, Clone, Copy)]
         enum Cls {
@@ -195,7 +199,7 @@ fn c09(s: &Solution, specs: &[EventSpec], dir: f64, known_root: Option<f64>, v: 
         let mut count = vec![0usize; m - 1];
         for t in &s.t_events[i] {
             // candidate steps whose closed interval contains t
-            let cands: Vec<usize> = (0..m - 1).filter(|&k| !before(*t, s.t[k], dir) && !before(s.t[k + 1], *t, dir)).collect();
+            let cands: Vec<usize> = (0..m - 1).filter(|&k| !before(*t, gt[k], dir) && !before(gt[k + 1], *t, dir)).collect();
             // prefer a step that expects an event and has none yet, then a free one, else the first
             let pick = cands
                 .iter()
@@ -212,12 +216,12 @@ fn c09(s: &Solution, specs: &[EventSpec], dir: f64, known_root: Option<f64>, v: 
                 Cls::Expect => {
                     tags.push("sign-change-step");
                     if count[k] != 1 {
-                        v.push(("missed".into(), format!("event {}: g changes sign over step [{:e},{:e}] (g={:e},{:e}) but {} events were reported there", i, s.t[k], s.t[k + 1], g[k], g[k + 1], count[k])));
+                        v.push(("missed".into(), format!("event {}: g changes sign over step [{:e},{:e}] (g={:e},{:e}) but {} events were reported there", i, gt[k], gt[k + 1], g[k], g[k + 1], count[k])));
                     }
                 }
                 Cls::Forbid => {
                     if count[k] != 0 {
-                        v.push(("spurious".into(), format!("event {}: no (direction-matching) sign change over step [{:e},{:e}] (g={:e},{:e}) but {} events were reported there", i, s.t[k], s.t[k + 1], g[k], g[k + 1], count[k])));
+                        v.push(("spurious".into(), format!("event {}: no (direction-matching) sign change over step [{:e},{:e}] (g={:e},{:e}) but {} events were reported there", i, gt[k], gt[k + 1], g[k], g[k + 1], count[k])));
                     }
                 }
                 Cls::Free => tags.push("exact-zero-at-endpoint"),
@@ -234,7 +238,7 @@ fn c09(s: &Solution, specs: &[EventSpec], dir: f64, known_root: Option<f64>, v: 
     // an event with a single known root: exactly one event there (if the direction matches)
     if let Some(c) = known_root {
         let sp = &specs[0];
-        let not_endpoint = s.t.iter().all(|t| *t != c);
+        let not_endpoint = gt.iter().all(|t| *t != c);
         let rising_in_time = matches!(sp.kind, EvKind::T(_));
         let rising_along = if dir > 0.0 { rising_in_time } else { !rising_in_time };
         let matches_dir = match sp.dir {
@@ -267,6 +271,8 @@ struct Ctx {
     cases: Vec<EvCase>,
     ymax: f64,
     dymax: f64,
+    /// accepted endpoints (x_j, y_j) of the run, observed through the low-level solver's callbacks
+    grid: Vec<(f64, Vec<f64>)>,
 }
 
 fn desc_of(cx: &Ctx, key: &str, ec: &EvCase, extra: Value) -> Value {
@@ -287,12 +293,12 @@ fn run_case_c0809(cx: &Ctx, key: &str, ec: &EvCase, mode: Mode) -> CaseOut {
     let mut detail = json!(null);
     match &r.out {
         Outcome::Ok(s) if s.status == Status::Success => {
-            detail = json!({"t_events": s.t_events, "n_steps": s.t.len() - 1});
+            detail = json!({"t_events": s.t_events, "n_steps": cx.grid.len() - 1, "first_step": cx.cfg.first_step});
             match mode {
-                Mode::C08 => c08(s, &ec.specs, dir, cx.ymax, cx.dymax, &mut vs, &mut tags),
-                _ => c09(s, &ec.specs, dir, ec.known_root, &mut vs, &mut tags),
+                Mode::C08 => c08(s, &cx.grid, &ec.specs, dir, cx.ymax, cx.dymax, &mut vs, &mut tags),
+                _ => c09(s, &cx.grid, &ec.specs, dir, ec.known_root, &mut vs, &mut tags),
             }
-            out.validated = s.t_events.iter().map(|l| l.len() as u64).sum::<u64>() + (s.t.len() as u64 - 1) * ec.specs.len() as u64;
+            out.validated = s.t_events.iter().map(|l| l.len() as u64).sum::<u64>() + (cx.grid.len() as u64 - 1) * ec.specs.len() as u64;
             let mut h = r.st.fp;
             for l in &s.t_events {
                 h.fs(l);
@@ -445,7 +451,14 @@ pub fn run_check(mode: Mode, replay: Option<Value>) -> i32 {
                     if mode == Mode::C10 && ti == 1 && !thorough {
                         continue;
                     }
-                    let cfg = scene_cfg(*m, &sc, *tol);
+                  for (fi, fs) in [None, Some(0.3)].iter().enumerate() {
+                    if mode == Mode::C10 && fi == 1 && ti == 1 {
+                        continue;
+                    }
+                    let mut cfg = scene_cfg(*m, &sc, *tol);
+                    if let Some(f) = fs {
+                        cfg.first_step = Some(f * (sc.xend - sc.x0));
+                    }
                     let plain = match plain_run(&sc.prob, &cfg) {
                         Some(p) => p,
                         None => {
@@ -453,6 +466,15 @@ pub fn run_check(mode: Mode, replay: Option<Value>) -> i32 {
                             continue;
                         }
                     };
+                    // the accepted endpoints, seen through the low-level solver's own callbacks
+                    let low = crate::run::run_lowlevel(&sc.prob, &cfg, &[], &[], None, false);
+                    let grid: Vec<(f64, Vec<f64>)> = low.recs.iter().map(|q| (q.x, q.y.clone())).collect();
+                    if low.ok().is_none() || grid.len() < 2 {
+                        rep.machinery_errors.push(format!("low-level grid run failed for {} {}", mname(*m), sc.name));
+                        continue;
+                    }
+                    // placements are made relative to the real accepted grid
+                    let plain = Plain { xs: grid.iter().map(|g| g.0).collect(), ys: grid.iter().map(|g| g.1.clone()).collect(), run: plain.run };
                     let cases = ev_cases(&plain, sc.prob.n == 2, thorough);
                     let ymax = plain.ys.iter().flat_map(|y| y.iter()).fold(0.0f64, |a, b| a.max(b.abs()));
                     let mut dymax: f64 = 0.0;
@@ -461,7 +483,8 @@ pub fn run_check(mode: Mode, replay: Option<Value>) -> i32 {
                         (sc.prob.f)(*t, y, &mut d);
                         dymax = d.iter().fold(dymax, |a, b| a.max(b.abs()));
                     }
-                    ctxs.push(Ctx { key: format!("{}:{}.{}.{}.{}", id.to_lowercase(), mi, backward as u8, si, ti), method: *m, backward, cfg, prob: sc.prob.clone(), plain, cases, ymax: ymax * 1.2, dymax: dymax * 1.5 });
+                    ctxs.push(Ctx { key: format!("{}:{}.{}.{}.{}.{}", id.to_lowercase(), mi, backward as u8, si, ti, fi), method: *m, backward, cfg, prob: sc.prob.clone(), plain, cases, ymax: ymax * 1.2, dymax: dymax * 1.5, grid });
+                  }
                 }
             }
         }
